@@ -2,7 +2,7 @@
     followed by [Print Assumptions]. *)
 From Coq Require Import List ZArith NArith Bool.
 From Kardia Require Import Generated.C17Facts C17.Model C17.ProofsBasic C17.ProofsInv C17.ProofsOps
-     C17.ProofsReset C17.ProofsFinal.
+     C17.ProofsReset C17.ProofsFinal C17.ProofsLimits.
 Import ListNotations.
 Local Open Scope Z_scope.
 
@@ -84,3 +84,16 @@ Theorem C17_reject_unchanged_refuted :
   map t_id (p_pending (fst (add_txs ex_c0 ex_p0 [ex_tx3] false))) = [2%N].
 Proof. exact reject_changes_example. Qed.
 Print Assumptions C17_reject_unchanged_refuted.
+
+(** GlobalQueue: after every reorg run (the one that follows an add batch, and the one of a head
+    reset) the queue is within GlobalQueue unless only local accounts still have queued transactions
+    (the post-condition of truncateQueue).  _partial: the GlobalSlots/AccountSlots post-condition of
+    truncatePending and the AccountQueue cap are not proved (Open.v); SetGasPrice runs no reorg and
+    can leave the queue over the limit (known finding). *)
+Theorem C17_queue_limit_after_reorg_partial :
+  forall c p,
+  Inv p ->
+  ((forall dirty, queue_ok (run_reorg c p None dirty)) /\
+   (forall ch, chain_nonneg ch -> queue_ok (run_reorg c p (Some (ch, [])) [])))%type.
+Proof. exact queue_limit. Qed.
+Print Assumptions C17_queue_limit_after_reorg_partial.
